@@ -782,9 +782,10 @@ class spawn(SpawnBase):
         '''
 
         # Flush the buffer.
-        self.write_to_stdout(self.buffer)
+        self.write_to_stdout(self._before.getvalue())
         self.stdout.flush()
         self._buffer = self.buffer_type()
+        self._before = self.buffer_type()
         mode = tty.tcgetattr(self.STDIN_FILENO)
         tty.setraw(self.STDIN_FILENO)
         if escape_character is not None and PY3:
